@@ -216,7 +216,7 @@ private theorem windSum_rotate (p : V2 K) (f : Nat → V2 K) (l : List Nat) (k :
   unfold windSum
   exact ((List.rotate_perm _ _).map _).sum_eq
 
-private theorem windSum_clip (p : V2 K) (f : Nat → V2 K) (e : Nat) (rest : List Nat) (h : rest ≠ []) :
+theorem windSum_clip (p : V2 K) (f : Nat → V2 K) (e : Nat) (rest : List Nat) (h : rest ≠ []) :
     windSum p f (polyEdges (e :: rest)) =
       windSum p f (polyEdges rest) + triWind p (f (rest.getLast h)) (f e) (f (rest.head h)) := by
   rw [polyEdges_cons e rest h, polyEdges_eq_path rest h]
@@ -231,7 +231,7 @@ private theorem windSum_triangle (p : V2 K) (f : Nat → V2 K) (i w u : Nat) :
     List.map_cons, List.map_nil, List.sum_cons, List.sum_nil, triWind]
   ring
 
-private theorem clipSeq_wind (p : V2 K) (f : Nat → V2 K) {cyc : List Nat} {ts : List (Nat × Nat × Nat)}
+theorem clipSeq_wind (p : V2 K) (f : Nat → V2 K) {cyc : List Nat} {ts : List (Nat × Nat × Nat)}
     (h : ClipSeq cyc ts) :
     (ts.map fun t => triWind p (f t.1) (f t.2.1) (f t.2.2)).sum = windSum p f (polyEdges cyc) := by
   induction h with
@@ -242,7 +242,7 @@ private theorem clipSeq_wind (p : V2 K) (f : Nat → V2 K) {cyc : List Nat} {ts 
       List.sum_cons, ih]
     simp [add_comm]
 
-private theorem windingNumber_map (p : V2 K) (f : Nat → V2 K) (l : List Nat) :
+theorem windingNumber_map (p : V2 K) (f : Nat → V2 K) (l : List Nat) :
     windingNumber p (l.map f) = windSum p f (polyEdges l) := by
   unfold windingNumber windSum
   rw [polyEdges_map, List.map_map]
